@@ -201,7 +201,8 @@ def _rewrite_tail(stmts: List[ast.stmt], make) -> List[ast.stmt]:
     return stmts + [ast.copy_location(x, last) for x in make(None)]
 
 
-def _expand(call: ast.Call, ctx_stmt: ast.stmt, helper, hkind: str, caller) -> Optional[List[ast.stmt]]:
+def _bind(call: ast.Call, helper, hkind: str) -> Optional[Dict[str, ast.AST]]:
+    """{parameter: argument expression} of a call of the helper (defaults filled in), or None when it cannot be told."""
     a = helper.args
     params = [x.arg for x in a.args]
     recv = None
@@ -232,6 +233,13 @@ def _expand(call: ast.Call, ctx_stmt: ast.stmt, helper, hkind: str, caller) -> O
             if n not in defaults:
                 return None
             bind[n] = defaults[n]
+    return bind
+
+
+def _expand(call: ast.Call, ctx_stmt: ast.stmt, helper, hkind: str, caller) -> Optional[List[ast.stmt]]:
+    bind = _bind(call, helper, hkind)
+    if bind is None:
+        return None
     stored = _stored_names(helper)
     caller_names = _stored_names(caller) | {x.arg for x in caller.args.args + caller.args.kwonlyargs}
     pre: List[ast.stmt] = []
@@ -376,16 +384,37 @@ def inline_new_helpers(trees: Dict[str, Tuple[str, ast.Module]], known: Optional
             for q, (fn, cls) in list(qn.items()):
                 if q in kn or not _eligible(fn):
                     continue
-                # referenced from another module?  (import of a private helper elsewhere)
-                elsewhere = any(isinstance(n, (ast.Name, ast.Attribute)) and getattr(n, "id", getattr(n, "attr", None)) == fn.name
-                                for om, (orel, ot) in trees.items() if om != mname for n in ast.walk(ot))
-                if elsewhere:
+                # referenced from another module?  a private module-level helper may be shared with sibling modules
+                # through `from .mod import helper`; any other outside reference leaves it alone
+                outside = [(om, ot) for om, (orel, ot) in trees.items() if om != mname
+                           and any(isinstance(n, (ast.Name, ast.Attribute)) and getattr(n, "id", getattr(n, "attr", None)) == fn.name for n in ast.walk(ot))]
+                importers = []
+                if outside:
+                    if cls is not None:
+                        continue
+                    for om, ot in outside:
+                        imp = [n for n in ast.walk(ot) if isinstance(n, ast.ImportFrom) and (n.module or "").split(".")[-1] == mname.split(".")[-1]
+                               and any(al.name == fn.name and al.asname is None for al in n.names)]
+                        if len(imp) != 1 or any(isinstance(n, ast.Attribute) and n.attr == fn.name for n in ast.walk(ot)):
+                            importers = None
+                            break
+                        importers.append((ot, imp[0]))
+                    if importers is None:
+                        continue
+                scopes = [tree] + [ot for ot, _ in importers]
+                if _expression_helper(fn) is not None and _inline_expression_helper(fn, cls, scopes, tree):
+                    holder = cls.body if cls is not None else tree.body
+                    holder[:] = [x for x in holder if x is not fn]
+                    _drop_imports(importers, fn.name)
+                    log.append(f"{rel}: new expression helper {q} substituted at its call sites")
+                    changed = True
                     continue
                 # all references inside this module must be calls in statement position inside some function
-                refs = [n for n in ast.walk(tree) if (isinstance(n, ast.Name) and n.id == fn.name and cls is None) or (isinstance(n, ast.Attribute) and n.attr == fn.name and cls is not None)]
+                refs = [n for t in scopes for n in ast.walk(t) if (isinstance(n, ast.Name) and n.id == fn.name and cls is None) or (isinstance(n, ast.Attribute) and n.attr == fn.name and cls is not None)]
                 sites = []
                 ok = True
-                for caller_q, (caller, ccls) in qn.items():
+                all_callers = list(qn.items()) + [it for ot, _ in importers for it in qualnames(ot).items()]
+                for caller_q, (caller, ccls) in all_callers:
                     if caller is fn:
                         if any(isinstance(n, ast.Call) and _matches(n, fn.name, cls) for n in ast.walk(fn)):
                             ok = False  # recursive
@@ -423,6 +452,7 @@ def inline_new_helpers(trees: Dict[str, Tuple[str, ast.Module]], known: Optional
                 if done == len(sites):
                     holder = cls.body if cls is not None else tree.body
                     holder[:] = [x for x in holder if x is not fn]
+                    _drop_imports(importers, fn.name)
                     log.append(f"{rel}: new helper {q} analysed as part of its {done} caller(s)")
                     changed = True
                 elif done:
@@ -431,6 +461,97 @@ def inline_new_helpers(trees: Dict[str, Tuple[str, ast.Module]], known: Optional
         if not changed:
             break
     return log
+
+
+def _drop_imports(importers, name: str):
+    for ot, imp in importers or []:
+        imp.names = [al for al in imp.names if al.name != name]
+        if not imp.names:
+            for holder in ast.walk(ot):
+                for fld in ("body", "orelse", "finalbody"):
+                    lst = getattr(holder, fld, None)
+                    if isinstance(lst, list) and imp in lst:
+                        lst[:] = [x for x in lst if x is not imp] or [ast.Pass()]
+
+
+def _expression_helper(fn) -> Optional[ast.AST]:
+    """The expression a helper returns when its whole body is `return <expression>` (after the docstring)."""
+    body = [s for s in fn.body if not (isinstance(s, ast.Expr) and isinstance(s.value, ast.Constant) and isinstance(s.value.value, str))]
+    if len(body) == 1 and isinstance(body[0], ast.Return) and body[0].value is not None:
+        if any(isinstance(n, (ast.NamedExpr, ast.Lambda)) for n in ast.walk(body[0].value)):
+            return None
+        return body[0].value
+    return None
+
+
+def _bound_in(e: ast.AST) -> Set[str]:
+    return {x.id for n in ast.walk(e) if isinstance(n, ast.comprehension) for x in ast.walk(n.target) if isinstance(x, ast.Name)}
+
+
+def _inline_expression_helper(fn, cls, scopes, home) -> bool:
+    """Replace every call of a one-expression helper by that expression (parameters substituted).  All or nothing."""
+    expr = _expression_helper(fn)
+    hkind = _kind(fn)
+    refs, calls = [], []
+    for t in scopes:
+        for n in ast.walk(t):
+            if n is fn:
+                continue
+            if (isinstance(n, ast.Name) and n.id == fn.name and cls is None) or (isinstance(n, ast.Attribute) and n.attr == fn.name and cls is not None):
+                refs.append(n)
+            if isinstance(n, ast.Call) and _matches(n, fn.name, cls):
+                calls.append(n)
+    inside = {id(n) for n in ast.walk(fn)}
+    refs = [r for r in refs if id(r) not in inside]
+    calls = [c for c in calls if id(c) not in inside]
+    if any(isinstance(n, ast.Call) and _matches(n, fn.name, cls) for n in ast.walk(fn)):
+        return False   # recursive
+    if not calls or len(calls) != len(refs):
+        return False
+    if cls is not None:
+        # method helpers: only calls from the class itself or module-local subclasses (resolved by name)
+        owners = {}
+        for c in [n for n in home.body if isinstance(n, ast.ClassDef)]:
+            for n in ast.walk(c):
+                owners[id(n)] = c
+        for c in calls:
+            oc = owners.get(id(c))
+            if oc is None or not (oc is cls or (_inherits(home, oc, cls) and _unique_name(home, fn.name))):
+                return False
+    plans = []
+    for c in calls:
+        bind = _bind(c, fn, hkind)
+        if bind is None:
+            return False
+        e = copy.deepcopy(expr)
+        # comprehension variables of the helper must not capture names of the arguments
+        clash = _bound_in(e) & {x.id for v in bind.values() for x in ast.walk(v) if isinstance(x, ast.Name)}
+        if clash:
+            ren = {b: f"{b}__{fn.name.strip('_')}" for b in clash}
+            for n in ast.walk(e):
+                if isinstance(n, ast.Name) and n.id in ren:
+                    n.id = ren[n.id]
+        # a parameter shadowed by a comprehension variable of the helper: leave the helper alone
+        if _bound_in(e) & set(bind):
+            return False
+        e = _Sub(bind, {}).visit(e)
+        for n in ast.walk(e):
+            ast.copy_location(n, c) if hasattr(n, "lineno") or isinstance(n, (ast.expr, ast.stmt)) else None
+        plans.append((c, e))
+    done = 0
+    for t in scopes:
+        for c, e in plans:
+            for parent in ast.walk(t):
+                for fld, val in ast.iter_fields(parent):
+                    if val is c:
+                        setattr(parent, fld, e)
+                        done += 1
+                    elif isinstance(val, list):
+                        for i, x in enumerate(val):
+                            if x is c:
+                                val[i] = e
+                                done += 1
+    return done == len(plans)
 
 
 def _inherits(tree: ast.Module, sub: ast.ClassDef, base: ast.ClassDef) -> bool:
